@@ -16,9 +16,14 @@ that lies in the support of the requested law but is extreme:
   choice(xs, p)   : first / last element with non-zero weight
 
 Never injected: values outside the support; exact measure-zero specials the
-consumer would have to divide by; more than ``max_consecutive`` extremes in a
-row for the same function (so a legitimate redraw-until-valid loop cannot be
-starved by the injector).  Coins come from the run's Choices, never from NumPy.
+consumer would have to divide by; exact COINCIDENCES between two continuous
+draws (every injected normal / interior uniform value carries a tiny jitter
+that is unique per call, so two injected values are never exactly equal nor
+exactly 0.5 apart - a joint event of probability zero that set semantics would
+turn into a lost unit; the closed ends a / nextafter(b) and random() == 0.0
+stay exact); more than ``max_consecutive`` extremes in a row for the same
+function (so a legitimate redraw-until-valid loop cannot be starved by the
+injector).  Coins come from the run's Choices, never from NumPy.
 Array-valued requests (size=...) are passed through untouched.
 """
 import math
@@ -37,6 +42,7 @@ class Adversary:
         self.consecutive = {}
         self.history = {}                  # fname -> last returned values
         self.fired = {}
+        self.n_injected = 0
 
     def __call__(self, fname, args, kwargs, real):
         if kwargs.get("size") is not None or (fname in ("normal", "uniform") and len(args) > 2):
@@ -67,7 +73,9 @@ class Adversary:
                         cands += [x, x]
             elif s == 0:
                 return NOINJECT
-            return float(ch.choice(cands))
+            v = float(ch.choice(cands))
+            self.n_injected += 1
+            return v + (self.n_injected % 9973 + 1) * 1e-13 * max(1.0, abs(v), abs(s))
         if fname == "uniform":
             a = float(args[0] if len(args) > 0 else kwargs.get("low", 0.0))
             b = float(args[1] if len(args) > 1 else kwargs.get("high", 1.0))
@@ -82,7 +90,15 @@ class Adversary:
             for x in self.landings.get("uniform", lambda a_, k: [])(args, kwargs):
                 if a <= x < b:
                     cands += [x, x]
-            return float(ch.choice(cands))
+            i = ch.randint(0, len(cands) - 1)
+            v = float(cands[i])
+            if i >= 2:
+                # interior values get a jitter unique to this call (no exact coincidence with another draw)
+                self.n_injected += 1
+                v2 = v + (self.n_injected % 9973 + 1) * 1e-13 * max(1.0, abs(a), abs(b))
+                if a <= v2 < b:
+                    v = v2
+            return v
         if fname in ("random", "random_sample"):
             return float(ch.choice([0.0, 1.0 - 2.0 ** -53, 0.5]))
         if fname == "randint":
